@@ -5,7 +5,7 @@
    premises [status k = MgOptimal -> feasible k], [status k = MgInfeasible -> ~ feasible k]. *)
 From Coq Require Import List NArith ZArith QArith Bool Arith Lia.
 Import ListNotations.
-From FP Require Import Lin Blocks BlocksProofs PathEnc MiscEnc MiscEncProofs MgsComplete LowerBoundsMgs MgsRange.
+From FP Require Import Lin Blocks BlocksProofs PathEnc MiscEnc MiscEncProofs MgsComplete LowerBoundsMgs MgsRange MgsPartsIff MgsRangeParts.
 Local Open Scope Q_scope.
 
 (* rows/columns of MinGenSet._create_solver(k) => the Gen values are a multiset of size k of values in
@@ -48,6 +48,46 @@ Theorem C15_genset_permutation_invariant : forall (m : nat) (numbers : list Q) (
   Permutation.Permutation g g' -> genset m numbers total g -> genset m numbers total g'.
 Proof. exact genset_perm. Qed.
 Print Assumptions C15_genset_permutation_invariant.
+
+(* ---- partition constraints: the rows admit EXACTLY the generating multisets that meet every constraint in the sense
+   part_ok_t (parts_t I): each element in exactly one part index below the length of the longest constraint, the sums of the parts
+   the constraint has as given (an element may sit in an index a shorter constraint does not have; it then adds to none of its sums) *)
+Theorem C15_partition_block_sound : forall (I : mgs_inst) (k : nat) (a : var -> Q), (1 <= mg_mult I)%nat -> sat a (encode_mgs I k) ->
+  Forall (part_ok_t (parts_t I) (map (fun i => a (Gen i)) (layers k))) (parts_of I).
+Proof. exact mgs_parts_sound. Qed.
+Print Assumptions C15_partition_block_sound.
+
+Theorem C15_genset_rows_complete_exact : forall (I : mgs_inst) (k : nat) (g : list Q),
+  (1 <= mg_mult I)%nat -> length g = k -> genset_rows I g -> exists a, sat a (encode_mgs I k).
+Proof. exact mgs_enc_complete_rows. Qed.
+Print Assumptions C15_genset_rows_complete_exact.
+
+(* THE IFF with partition constraints (both directions, same predicate) *)
+Theorem C15_model_feasible_iff_generating_multiset_with_partition_constraints : forall (I : mgs_inst) (k : nat), (1 <= mg_mult I)%nat ->
+  ((exists a, sat a (encode_mgs I k)) <-> exists g, length g = k /\ genset_rows I g).
+Proof. exact mgs_feasible_iff_parts. Qed.
+Print Assumptions C15_model_feasible_iff_generating_multiset_with_partition_constraints.
+
+(* the rows' predicate is the natural one (every element in exactly one part OF the constraint) whenever all constraints have the
+   same number of parts, in particular for a single constraint; in general the natural predicate implies it (corollary used above) *)
+Theorem C15_rows_predicate_natural_for_equal_lengths : forall (I : mgs_inst) (g : list Q),
+  (forall cons, In cons (parts_of I) -> length cons = parts_t I) -> (genset_rows I g <-> genset_for I g).
+Proof. exact genset_rows_strict. Qed.
+Print Assumptions C15_rows_predicate_natural_for_equal_lengths.
+Theorem C15_natural_predicate_implies_rows_predicate : forall (I : mgs_inst) (g : list Q), genset_for I g -> genset_rows I g.
+Proof. exact genset_for_rows. Qed.
+Print Assumptions C15_natural_predicate_implies_rows_predicate.
+
+(* MinGenSet.solve returns the minimum also WITH partition constraints (solver specification): the reported size has a generating
+   multiset meeting every constraint, no size from max(1, lowerbound) up to it has one *)
+Theorem C15_mgs_returns_minimum_exact : forall (I : mgs_inst) (status : nat -> mstatus), (1 <= mg_mult I)%nat ->
+  (forall k, status k = MgOptimal -> exists a, sat a (encode_mgs I k)) ->
+  (forall k, status k = MgInfeasible -> forall a, ~ sat a (encode_mgs I k)) ->
+  forall lb n extra tried k, mgsm_loop status lb n extra = (tried, Some k) ->
+  (exists g, length g = k /\ genset_rows I g) /\ (Nat.max 1 lb <= k)%nat /\
+  forall k' g, (Nat.max 1 lb <= k' < k)%nat -> length g = k' -> ~ genset_rows I g.
+Proof. exact mgs_returns_minimum_rows. Qed.
+Print Assumptions C15_mgs_returns_minimum_exact.
 
 (* pre-processing keeps exactly the generating multisets of the caller's numbers *)
 Theorem C15_preprocess_preserves_generating_multisets : forall (rm : bool) (mult : nat) (numbers : list Q) (total : Q) (g : list Q),
@@ -127,6 +167,29 @@ Theorem C15_mgs_always_solves : forall (I : mgs_inst) (status : nat -> mstatus) 
 Proof. exact mgs_always_solves. Qed.
 Print Assumptions C15_mgs_always_solves.
 
+(* ---- the upper end of the search range suffices ALSO WITH PARTITION CONSTRAINTS (cut-point construction: the numbers and
+   the inner prefix sums of every constraint as cut points of [0,total]; the differences of the sorted cut points) ---- *)
+Theorem C15_range_suffices : forall (I : mgs_inst), (1 <= mg_mult I)%nat -> mgs_domain_parts I ->
+  forall k, (Z.of_nat (length (mg_numbers I)) + 1 + extra_cuts (mg_parts I) <= Z.of_nat k)%Z ->
+  (exists g, length g = k /\ genset_for I g) /\ exists a, sat a (encode_mgs I k).
+Proof. exact mgs_range_suffices. Qed.
+Print Assumptions C15_range_suffices.
+
+(* MinGenSet.solve is SOLVED for EVERY input of the documented domain (numbers in [0,total]; every partition constraint a
+   non-empty list of positive parts summing to the total; integral data for int; any lower bound up to the end of the range)
+   and its answer is the MINIMUM -- under the solver specification with truthful statuses *)
+Theorem C15_mgs_always_solves_minimum : forall (I : mgs_inst) (status : nat -> mstatus) (lb n_initial : nat),
+  (1 <= mg_mult I)%nat -> mgs_domain_parts I -> (length (mg_numbers I) <= n_initial)%nat ->
+  (Z.of_nat lb <= Z.of_nat n_initial + 1 + extra_cuts (mg_parts I))%Z ->
+  (forall k, status k = MgOptimal -> exists a, sat a (encode_mgs I k)) ->
+  (forall k, status k = MgInfeasible -> forall a, ~ sat a (encode_mgs I k)) ->
+  (forall k, status k = MgOptimal \/ status k = MgInfeasible) ->
+  exists tried k, mgsm_loop status lb n_initial (extra_cuts (mg_parts I)) = (tried, Some k) /\
+    (exists g, length g = k /\ genset_rows I g) /\ (Nat.max 1 lb <= k)%nat /\
+    forall k' g, (Nat.max 1 lb <= k' < k)%nat -> length g = k' -> ~ genset_rows I g.
+Proof. exact mgs_always_solves_minimum. Qed.
+Print Assumptions C15_mgs_always_solves_minimum.
+
 (* outside that domain: with max_multiplicity = 1 a number above the total has no generating multiset of any size, so every
    model of the search is infeasible and MinGenSet ends unsolved (MinFlowDecomp's lower bound is then unavailable) *)
 Theorem C15_number_above_total_infeasible : forall (numbers : list Q) (total : Q) (g : list Q) (a : Q),
@@ -193,8 +256,7 @@ Print Assumptions C15_loop_unsolved.
 
 (* with conclusive statuses solve() succeeds whenever some size in lowerbound .. len(numbers)+1+extra_cuts is feasible.
    Without partition constraints some size of the range IS feasible (C15_range_upper_end_suffices, C15_mgs_always_solves below);
-   PARTIAL only for partition constraints: that len(numbers)+1+extra_cuts elements suffice there (cut-point construction with
-   the prefix sums of every constraint) is not proved in Coq; it is sampled by E2 *)
+   with partition constraints: C15_range_suffices, C15_mgs_always_solves_minimum) *)
 Theorem C15_loop_complete_partial : forall (feasible : nat -> Prop) (status : nat -> mstatus),
   (forall k, status k = MgInfeasible -> ~ feasible k) ->
   forall lb n extra, (forall k, status k = MgOptimal \/ status k = MgInfeasible) ->
@@ -317,9 +379,19 @@ Example C15_nonvacuous_complete : genset_for ex_complete_inst [3 # 4; 1 # 4] /\ 
 Proof. split; [exact ex_complete_genset|exact ex_complete_sat]. Qed.
 Example C15_nonvacuous_complete_with_partition_constraints : genset_for ex_parts_inst [2; 1; 2; 1] /\ exists a, sat a (encode_mgs ex_parts_inst 4).
 Proof. split; [exact ex_parts_genset|exact ex_parts_sat]. Qed.
+Example C15_nonvacuous_rows_predicate : genset_rows ex_parts_inst [2; 1; 2; 1] /\ parts_t ex_parts_inst = 3%nat.
+Proof. split; [apply genset_for_rows; exact ex_parts_genset|reflexivity]. Qed.
 Example C15_nonvacuous_range : range_witness [4; 1; 2] 7 = [1 - 0; 2 - 1; 4 - 2; 7 - 4] /\ mgs_domain ex_range_inst /\
   exists a, sat a (encode_mgs ex_range_inst 4).
 Proof. exact ex_range. Qed.
+Example C15_nonvacuous_range_with_partition_constraints : mgs_domain_parts ex_parts_inst /\
+  cut_witness (mg_numbers ex_parts_inst) (parts_of ex_parts_inst) (mg_total ex_parts_inst) = [1 - 0; 1 - 1; (0 + 2) - 1; (0 + 2 + 2) - (0 + 2); 6 - (0 + 2 + 2)] /\
+  exists a, sat a (encode_mgs ex_parts_inst 5).
+Proof. exact ex_parts_domain. Qed.
+(* the bound len(numbers) + 1 + extra_cuts of C15_range_suffices is tight: here it is 2, {2,4} works, no single element does *)
+Example C15_range_bound_is_tight : (Z.of_nat (length (mg_numbers ex_tight_inst)) + 1 + extra_cuts (mg_parts ex_tight_inst) = 2)%Z /\
+  genset_for ex_tight_inst [2; 4] /\ forall g, length g = 1%nat -> ~ genset_for ex_tight_inst g.
+Proof. exact ex_tight. Qed.
 (* a satisfiable MinSetCover model *)
 Example C15_nonvacuous_setcover : exists m, encode_msc {| sc_universe := [1; 2; 3]%N; sc_subsets := [[1; 2]; [2; 3]; [3]]%N; sc_weights := Some [1; 1; 1] |} = Some m /\
   sat (fun v => match vidx v with [i] => if (i =? 2)%N then 0 else 1 | _ => 0 end) m.
